@@ -37,6 +37,9 @@ fn fgt<T>(t: T) { core::mem::forget(t) }
 
 fn model_encode_check_to_fmt(_fmt: &mut core::fmt::Formatter, _data: &[u8]) -> core::fmt::Result { Ok(()) }
 fn model_xpub_encode(_x: &Xpub) -> [u8; 78] { [0u8; 78] }
+use std::fmt as sfmt;
+/// `format!` (the text of the MergeConflict message) is irrelevant to every assertion here and its machinery is expensive.
+fn model_format(_args: core::fmt::Arguments<'_>) -> String { String::new() }
 
 fn the_xpub() -> Xpub {
     Xpub {
@@ -160,6 +163,7 @@ macro_rules! xpub_with3 { ($mode:expr) => { xpub_dispatch!($mode; (0,3),(1,3),(2
 #[kani::stub(zffi::secp256k1_ec_pubkey_cmp, model_ec_pubkey_cmp)]
 #[kani::stub(b58::encode_check_to_fmt, model_encode_check_to_fmt)]
 #[kani::stub(XpubT::encode, model_xpub_encode)]
+#[kani::stub(sfmt::format, model_format)]
 fn c14_global_xpub_no_panic_le2() { xpub_all_le2!(Mode::NoPanic); }
 
 //@ harness: c14_global_xpub_no_panic_len3 class=B tier=thorough bound="length pairs with one path of length 3" props=C10,C14
@@ -169,6 +173,7 @@ fn c14_global_xpub_no_panic_le2() { xpub_all_le2!(Mode::NoPanic); }
 #[kani::stub(zffi::secp256k1_ec_pubkey_cmp, model_ec_pubkey_cmp)]
 #[kani::stub(b58::encode_check_to_fmt, model_encode_check_to_fmt)]
 #[kani::stub(XpubT::encode, model_xpub_encode)]
+#[kani::stub(sfmt::format, model_format)]
 fn c14_global_xpub_no_panic_len3() { xpub_with3!(Mode::NoPanic); }
 
 //@ harness: c14_global_xpub_reconcile_le2 class=B tier=quick bound="path length pairs 0..=2 x 0..=2" props=C14
@@ -178,6 +183,7 @@ fn c14_global_xpub_no_panic_len3() { xpub_with3!(Mode::NoPanic); }
 #[kani::stub(zffi::secp256k1_ec_pubkey_cmp, model_ec_pubkey_cmp)]
 #[kani::stub(b58::encode_check_to_fmt, model_encode_check_to_fmt)]
 #[kani::stub(XpubT::encode, model_xpub_encode)]
+#[kani::stub(sfmt::format, model_format)]
 fn c14_global_xpub_reconcile_le2() { xpub_all_le2!(Mode::Reconcile); }
 
 //@ harness: c14_global_xpub_reconcile_len3 class=B tier=thorough bound="length pairs with one path of length 3" props=C14
@@ -187,6 +193,7 @@ fn c14_global_xpub_reconcile_le2() { xpub_all_le2!(Mode::Reconcile); }
 #[kani::stub(zffi::secp256k1_ec_pubkey_cmp, model_ec_pubkey_cmp)]
 #[kani::stub(b58::encode_check_to_fmt, model_encode_check_to_fmt)]
 #[kani::stub(XpubT::encode, model_xpub_encode)]
+#[kani::stub(sfmt::format, model_format)]
 fn c14_global_xpub_reconcile_len3() { xpub_with3!(Mode::Reconcile); }
 
 //@ harness: c14_global_xpub_conflict_le2 class=B tier=quick bound="path length pairs 0..=2 x 0..=2" props=C14
@@ -196,6 +203,7 @@ fn c14_global_xpub_reconcile_len3() { xpub_with3!(Mode::Reconcile); }
 #[kani::stub(zffi::secp256k1_ec_pubkey_cmp, model_ec_pubkey_cmp)]
 #[kani::stub(b58::encode_check_to_fmt, model_encode_check_to_fmt)]
 #[kani::stub(XpubT::encode, model_xpub_encode)]
+#[kani::stub(sfmt::format, model_format)]
 fn c14_global_xpub_conflict_le2() { xpub_all_le2!(Mode::Conflict); }
 
 //@ harness: c14_global_xpub_conflict_len3 class=B tier=thorough bound="length pairs with one path of length 3" props=C14
@@ -205,6 +213,7 @@ fn c14_global_xpub_conflict_le2() { xpub_all_le2!(Mode::Conflict); }
 #[kani::stub(zffi::secp256k1_ec_pubkey_cmp, model_ec_pubkey_cmp)]
 #[kani::stub(b58::encode_check_to_fmt, model_encode_check_to_fmt)]
 #[kani::stub(XpubT::encode, model_xpub_encode)]
+#[kani::stub(sfmt::format, model_format)]
 fn c14_global_xpub_conflict_len3() { xpub_with3!(Mode::Conflict); }
 
 //@ harness: c14_global_xpub_disjoint class=B tier=quick bound="two different concrete xpubs, paths of length 1" props=C14
@@ -247,6 +256,7 @@ fn any_tweak() -> Tweak {
 //@ harness: c14_global_scalars_union class=B tier=quick bound="one scalar per operand" props=C14
 //@ clause: Global::merge: the scalars of the result are the sorted, duplicate-free union of the operands' scalars, in both merge orders
 #[kani::proof]
+#[kani::unwind(34)]
 #[kani::stub(zffi::secp256k1_ec_seckey_verify, model_ec_seckey_verify)]
 fn c14_global_scalars_union() {
     let s1 = any_tweak();
@@ -338,3 +348,14 @@ fn c14_global_unknown_union() {
     assert!(b2.unknown.get(&k1) == Some(&v1) && b2.unknown.get(&k2) == Some(&v2));
     fgt(a1); fgt(b2);
 }
+
+#[kani::proof]
+#[kani::unwind(5)]
+#[kani::stub(zffi::secp256k1_ec_pubkey_cmp, model_ec_pubkey_cmp)]
+#[kani::stub(sfmt::format, model_format)]
+fn zz_probe_case_conflict_2_1() { xpub_case::<2, 1>(Mode::Conflict); }
+#[kani::proof]
+#[kani::unwind(5)]
+#[kani::stub(zffi::secp256k1_ec_pubkey_cmp, model_ec_pubkey_cmp)]
+#[kani::stub(sfmt::format, model_format)]
+fn zz_probe_case_reconcile_1_2() { xpub_case::<1, 2>(Mode::Reconcile); }
